@@ -191,6 +191,19 @@ class _NormalForm(ast.NodeTransformer):
         self.generic_visit(n)
         def is_log(t):
             return isinstance(t, ast.Name) and t.id == 'LOG'
+        # `if a != b: X else: Y` -> `if a == b: Y else: X` (also `is not`, `not in`, `not c`): one spelling of a two-armed test
+        if n.orelse and not (len(n.orelse) == 1 and isinstance(n.orelse[0], ast.If)):
+            t = n.test
+            pos = None
+            if isinstance(t, ast.Compare) and len(t.ops) == 1 and isinstance(t.ops[0], (ast.NotEq, ast.IsNot, ast.NotIn)):
+                op = {ast.NotEq: ast.Eq, ast.IsNot: ast.Is, ast.NotIn: ast.In}[type(t.ops[0])]()
+                pos = ast.copy_location(ast.Compare(left=t.left, ops=[op], comparators=t.comparators), t)
+            elif isinstance(t, ast.UnaryOp) and isinstance(t.op, ast.Not):
+                pos = t.operand
+            if pos is not None and not (isinstance(pos, ast.Name) and pos.id == 'LOG'):
+                n.test = pos
+                n.body, n.orelse = n.orelse, n.body
+                self.count += 1
         while not n.orelse and len(n.body) == 1 and isinstance(n.body[0], ast.If) and not n.body[0].orelse:
             inner = n.body[0]
             if is_log(n.test) or is_log(inner.test):
